@@ -327,4 +327,91 @@ theorem lastIsNone_append_none (vs : List Val) : lastIsNone (vs ++ [.none]) = tr
 theorem adjust_drop_none (o : ListOpts) (ha : o.afd = true) (vs : List Val) : adjust o (vs ++ [.none]) = vs := by
   simp [adjust, lastIsNone_append_none, ha]
 
+/-! ### `_make_squash_data` -/
+
+/-- one step of the loop of `_make_squash_data` -/
+def squashOK (suffix : List Name) (p : Name × List (List Name)) : Bool :=
+  decide (p.1 ∉ suffix) && p.2.all (fun r => r.length ≤ 1)
+
+theorem count_le_one (rules : List (List Name)) :
+    ((rules.filter fun r => r.length = 0).length + (rules.filter fun r => r.length = 1).length < rules.length) =
+      !(rules.all fun r => decide (r.length ≤ 1)) := by
+  have key : ∀ rules : List (List Name),
+      (rules.filter fun r => r.length = 0).length + (rules.filter fun r => r.length = 1).length ≤ rules.length ∧
+      ((rules.filter fun r => r.length = 0).length + (rules.filter fun r => r.length = 1).length = rules.length ↔
+        rules.all (fun r => decide (r.length ≤ 1)) = true) := by
+    intro rules
+    induction rules with
+    | nil => simp
+    | cons r rs ih =>
+      obtain ⟨h1, h2⟩ := ih
+      by_cases h0 : r.length = 0
+      · have e0 : decide (r.length = 0) = true := by simp [h0]
+        have e1 : decide (r.length = 1) = false := by simp [h0]
+        have e2 : decide (r.length ≤ 1) = true := by simp [h0]
+        simp only [List.filter_cons, e0, e1, e2, if_true, List.length_cons, List.all_cons, Bool.true_and,
+          Bool.false_eq_true, if_false]
+        constructor
+        · omega
+        · rw [← h2]; omega
+      · by_cases h1' : r.length = 1
+        · have e0 : decide (r.length = 0) = false := by simp [h1']
+          have e1 : decide (r.length = 1) = true := by simp [h1']
+          have e2 : decide (r.length ≤ 1) = true := by simp [h1']
+          simp only [List.filter_cons, e0, e1, e2, if_true, List.length_cons, List.all_cons, Bool.true_and,
+            Bool.false_eq_true, if_false]
+          constructor
+          · omega
+          · rw [← h2]; omega
+        · have e0 : decide (r.length = 0) = false := by simp [h0]
+          have e1 : decide (r.length = 1) = false := by simp [h1']
+          have e2 : decide (r.length ≤ 1) = false := by simp; omega
+          simp only [List.filter_cons, e0, e1, e2, List.length_cons, List.all_cons, Bool.false_and,
+            Bool.false_eq_true, if_false, iff_false]
+          omega
+  obtain ⟨h1, h2⟩ := key rules
+  by_cases h : rules.all (fun r => decide (r.length ≤ 1)) = true
+  · have := h2.mpr h
+    simp [h, -List.length_eq_zero_iff]; omega
+  · have hne : ¬ _ := fun e => h (h2.mp e)
+    simp [h, -List.length_eq_zero_iff]
+    omega
+
+theorem mkSquashData_eq (P : Prods) (suffix : List Name) :
+    mkSquashData P suffix =
+      ((P.filter (squashOK suffix)).map (·.1),
+       ((P.filter (squashOK suffix)).filter fun p => 1 < (p.2.filter fun r => r.length = 1).length).map (·.1)) := by
+  unfold mkSquashData
+  suffices h : ∀ (acc : List Name × List Name),
+      List.foldl (fun (acc : List Name × List Name) (p : Name × List (List Name)) =>
+        if p.1 ∈ suffix then acc else
+        let nNull := (p.2.filter fun r => r.length = 0).length
+        let nOne := (p.2.filter fun r => r.length = 1).length
+        if nNull + nOne < p.2.length then acc else
+        (acc.1 ++ [p.1], if nOne > 1 then acc.2 ++ [p.1] else acc.2)) acc P =
+      (acc.1 ++ (P.filter (squashOK suffix)).map (·.1),
+       acc.2 ++ ((P.filter (squashOK suffix)).filter fun p => 1 < (p.2.filter fun r => r.length = 1).length).map (·.1)) by
+    simpa using h ([], [])
+  induction P with
+  | nil => intro acc; simp
+  | cons p P ih =>
+    intro acc
+    simp only [List.foldl_cons]
+    by_cases hs : p.1 ∈ suffix
+    · simp [hs, ih, squashOK, -List.length_eq_zero_iff]
+    · by_cases hr : p.2.all (fun r => decide (r.length ≤ 1)) = true
+      · have hc := count_le_one p.2
+        rw [hr] at hc
+        simp [-List.length_eq_zero_iff] at hc
+        have hlt : ¬ ((p.2.filter fun r => r.length = 0).length + (p.2.filter fun r => r.length = 1).length < p.2.length) := by
+          omega
+        by_cases h1 : 1 < (p.2.filter fun r => r.length = 1).length
+        · simp [hs, hlt, ih, squashOK, hr, h1, -List.length_eq_zero_iff]
+        · simp [hs, hlt, ih, squashOK, hr, h1, -List.length_eq_zero_iff]
+      · have hc := count_le_one p.2
+        simp only [Bool.not_eq_true] at hr
+        rw [hr] at hc
+        simp [-List.length_eq_zero_iff] at hc
+        simp [hs, hc, ih, squashOK, hr, -List.length_eq_zero_iff]
+
 end Templates
